@@ -212,7 +212,7 @@ func (sp *SimpleProof) StringIndented(indent string) string {
 // If the length of the innerHashes slice isn't exactly correct, the result is nil.
 func computeHashFromAunts(index int, total int, leafHash []byte, innerHashes [][]byte) []byte {
 	// Recursive impl.
-	if index >= total {
+	if index < 0 || index >= total {
 		return nil
 	}
 	switch total {
